@@ -201,6 +201,19 @@ impl Property for C21 {
     fn cases(&self, tier: Tier) -> u32 {
         tier.pick(300_000, 6_000_000)
     }
+    // doc-heavy text can declare a self-referential generic alias (`---@alias A` + `---| A<B>`), whose analysis recurses
+    // until the stack is gone (open finding C12-F3): the cases run in a worker child so that such an abort is a
+    // per-case outcome.  Crash freedom is C12's property; here the case is only counted as not judged.
+    fn isolated(&self) -> bool {
+        true
+    }
+    fn on_abort(&self, _case: &Case, how: &str, stderr: &str, _msg: String) -> Verdict {
+        if stderr.contains("overflowed its stack") {
+            Verdict::Skip("analysis-stack-overflow(C12)".into())
+        } else {
+            Verdict::Skip(format!("analysis-abort(C12):{how}"))
+        }
+    }
     fn strategy(&self, tier: Tier) -> BoxedStrategy<Case> {
         let size = Size::for_tier(tier);
         let gen_valid = la::any_program(size).prop_map(|(prog, layout)| Src::Gen { prog, layout, muts: vec![] });
